@@ -108,6 +108,20 @@ fix(
     ),
 )
 
+fix(
+    "C14g",
+    "fix: never merge an extension in place into the parameter tree of a reform",
+    (
+        "openfisca_core/taxbenefitsystems/tax_benefit_system.py",
+        "            if self.baseline is not None and self.parameters is self.baseline.parameters:\n"
+        "                # A reform shares its baseline's tree until it changes it: the\n"
+        "                # baseline is not to be mutated.\n",
+        "            if self.baseline is not None:\n"
+        "                # A reform may share its tree with any system along its chain of\n"
+        "                # baselines, or with other reforms of them: never merge in place.\n",
+    ),
+)
+
 TBS = "openfisca_core/taxbenefitsystems/tax_benefit_system.py"
 fix(
     "C07",
